@@ -133,6 +133,23 @@ def check_pair(apts, lpts):
         for (t, u), got in zip(sorted(exp), ts):
             if abs(t - got) > 1e-5:
                 return "%s: crossing at t=%r reported at t=%r" % (which, t, got)
+    # the answer describes the operands as they are NOW: intersect, change one operand's control points in place (the line first, then the
+    # curve), intersect again: exactly the answer of freshly built operands with the control points read back
+    import random
+    rng = random.Random(hash((tuple(apts), tuple(lpts))) & 0xFFFFFF)
+    for victim in (L, A):
+        route, new = oc.edit_in_place(victim, rng)
+        A2 = oc.mkseg([(q.x, q.y) for q in A.points])
+        L2 = oc.mkseg([(q.x, q.y) for q in L.points])
+        for (r1, o1), (r2, o2), nm in (((A, L), (A2, L2), "curve.intersections(line)"), ((L, A), (L2, A2), "line.intersections(curve)")):
+            try:
+                live = sorted((i.t1, i.t2) for i in r1.intersections(o1))
+                fresh = sorted((i.t1, i.t2) for i in r2.intersections(o2))
+            except Exception as ex:
+                return "intersections raised %r after an in-place edit" % (ex,)
+            if live != fresh:
+                return "after changing the %s's control points in place (%s) %s answers %r; freshly built operands with the same control points answer %r (stale state)" % (
+                    "line" if victim is L else "curve", route, nm, live, fresh)
     # whichever operand is the receiver: same pairs up to swapping
     if len(apts) > 2:
         a = sorted((i.t1, i.t2) for i in runs[0])
